@@ -45,10 +45,21 @@ package compile
 
 // Building children: every child that is returned passed the compiler's filter. The callees
 // build arbitrary schema nodes but never assign the filter (see the footprint obligation).
-//@ func (*Compiler).IgnoreNode
+// A node is left out iff it is deviated not-supported or SOME if-feature on it does not hold (C14: "present iff all of
+// its if-features ... are enabled"): every if-feature statement counts, whatever their order.
+//@ func (*Compiler).CheckIfFeature
 //@   assumed
+//@   requires c != nil && n != nil
 //@   modifies *
 //@   preserves c.filter
+//@   ensures result == feat_ifon(n)
+//@ func (*Compiler).IgnoreNode
+//@   requires c != nil && node != nil
+//@   modifies *
+//@   preserves c.filter
+//@   ensures result == (node_notsupported(node) || exists(k, 0, node_nchildren_of(node, parse.NodeIfFeature), !feat_ifon(iffs(node, k))))
+//@   loop 0 invariant c.filter == old(c.filter) && forall(k, 0, loopidx+1, feat_ifon(iffs(node, k)))
+//@   loop 0 invariant len(looprange) == node_nchildren_of(node, parse.NodeIfFeature) && forall(i, 0, len(looprange), looprange[i] == iffs(node, i) && looprange[i] != nil)
 //@ func (*Compiler).BuildNode
 //@   assumed
 //@   modifies *
@@ -89,6 +100,7 @@ package compile
 //@ func (*Compiler).getStatus
 //@   requires c != nil && node != nil
 //@   modifies *
+//@   preserves c.filter
 //@   ensures implies(node_child_by_type(node, parse.NodeStatus) == nil, result == inheritedStatus)
 //@   ensures implies(node_child_by_type(node, parse.NodeStatus) != nil, result >= inheritedStatus &&
 //@           iff(result == schema.Current, node_argstatus(node_child_by_type(node, parse.NodeStatus)) == "current") &&
